@@ -71,9 +71,9 @@ var topologies = map[string]topo{
 // op is one recorded request.
 type op struct {
 	tsochk.Resp
-	Mode   string `json:"mode"`   // direct | grpc | forward
-	Round  int    `json:"round"`  // -1 = probe
-	Target int    `json:"target"` // member the request was handed to (allocator side)
+	Mode   string `json:"mode"`    // direct | grpc | forward
+	Round  int    `json:"round"`   // -1 = probe
+	Target int    `json:"target"`  // member the request was handed to (allocator side)
 	WallMs int64  `json:"wall_ms"` // wall clock at return (diagnostics in witnesses only; no oracle reads it)
 }
 
